@@ -103,6 +103,14 @@ def gen_blocks(rng, fault_site):
             b['stop_data'] = rng.random() < 0.6
             b['guard'] = rng.choice([None, None, 0.2])
             b['stop_timeout'] = 10.0
+            if rng.random() < 0.2:
+                # a single long run still active when the stop time-out expires: the time-out's
+                # cancellation must reach the output task (cancel mode, one put, no stop_data:
+                # clear of the known finding F13, which needs queued work)
+                b.update(mode='cancel', dur=3.0, stop_data=False, guard=None, stop_timeout=0.3,
+                         tight=True)
+        elif kind == 'persist':
+            b['stored'] = rng.random() < 0.6
         elif kind == 'ofunc':
             b['stop_data'] = rng.random() < 0.7
         elif kind == 'repeat':
@@ -197,6 +205,10 @@ def gen(rng, tier, index=0):
             if b['kind'] == 'oasync':
                 ops.append({'t': rng.choice([7.7, 7.95, 8.0]), 'blk': b['name'], 'value': 7})
                 ops.append({'t': 8.0, 'blk': b['name'], 'value': 8})
+    for b in blocks:
+        if b.get('tight'):
+            ops = [o for o in ops if o['blk'] != b['name']]
+            ops.append({'t': 7.7, 'blk': b['name'], 'value': 7})
     ops.sort(key=lambda o: o['t'])
     second = None
     if rng.random() < 0.3 and cause != 'none' and instant not in ('before_start',):
@@ -483,7 +495,10 @@ def build(ctx, plan, storage):
                 blk = PIfv(name, x_ctx=ctx, initdef=5)
             elif kind == 'persist':
                 blk = PPersist(name, x_ctx=ctx, persistent=True)
-                storage[blk.key] = 'stored'
+                if b.get('stored', True):
+                    storage[blk.key] = 'stored'
+                else:
+                    ctx.run.fired('reach:persistent_block_without_saved_state')
             elif kind == 'main':
                 blk = PMain(name, x_ctx=ctx, x_spec=b, stop_timeout=b.get('stop_timeout', 3.0))
             elif kind == 'async':
